@@ -22,6 +22,23 @@ CLAIMED = {
     },
 }
 
+CLAIMED['C14'] = {
+    'text': 'Theorem C14_syntax_exact proves for every note letter, every arity >= 2, every position list in 1..99 and '
+            'every segment (any length, any contents) that the model of is_syntax_valid returns valid exactly when the '
+            'five-line X12 definition (Spec/C14_spec.v) is not violated on the presence pattern, and never raises; '
+            'C14_syntax_routing proves the one-error-per-violated-note / code 10 for E, 2 otherwise clause for the '
+            'syntax loop of segment validation. This is stronger than the 2^n enumeration the property quantifies over '
+            '(all arities and segment lengths by induction). The model is tied to the code by running both on every '
+            'note of the shipped maps x all presence patterns x segment lengths, and the X12 definition extracted from '
+            'the spec is applied to the implementation (is_syntax_valid and the element errors of segment_if.is_valid).',
+    'design_ref': 'DESIGN.md §6 C14',
+    'note': 'Trusted: Coq kernel; hand transcription of syntax.py, _split_syntax and the syntax loop; Segment/X12Path models '
+            '(get_value by designator goes through the regenerated rec_path regex, swept for 01..99 inside Coq); '
+            'extraction + driver. The per-map clause (every shipped note parses) is checked on the implementation and by '
+            'the split_syntax correspondence; it becomes a Coq computation once the maps are transcribed (C16).',
+    'technique': 'Coq proof by induction over the position list + extracted-model correspondence + spec oracle on all map notes',
+}
+
 NOT_YET = {
 }
 
